@@ -279,7 +279,7 @@ func TestC14(t *testing.T) {
 		}
 		return c14Piece{Text: "<" + tag + ":" + txt + ">"}
 	}
-	col.Rapid(g.Sub, env.PerShard(env.Pick(2500, 120000)), func(t *rapid.T) {
+	col.Rapid(g.Sub, env.PerShard(env.Pick(8000, 100000)), func(t *rapid.T) {
 		c := &c14Case{N: rapid.IntRange(0, 2).Draw(t, "n"), Vars: map[string]string{}}
 		leaves := []string{"leaf.html", "d1/leaf.html", "d1/d2/leaf.html", "d1/other.html", "x-y.txt"}
 		chain := []string{"a.html", "b.html", "c.html", "d.html"}
